@@ -34,7 +34,8 @@ EXCLUSIONS = [
     "colon: only for a non-empty label in column 1 followed by a blank or the line end; 'lab:op' without blank is left alone",
     "blank/comment-only lines are not inserted after a continuation line nor inside macro/repetition bodies; sources using MOMLINE are not given extra lines",
     "every rewritten line must have model fields equal to the original's (Lean c16pair); otherwise the rewrite of that line is dropped (counted as model_rejected)",
-    "to-macro: only sources without MACRO/ENDM/IRP*/REPT/WHILE/EXITM/SHIFT/END/'#' lines, continuation lines, ATTRIBUTE/ALLARGS/ARGCOUNT/__LABEL__ words",
+    "to-macro: only sources without MACRO/ENDM/IRP*/REPT/WHILE/EXITM/SHIFT/END/'#' lines, continuation lines, ATTRIBUTE/ALLARGS/ARGCOUNT/__LABEL__ words "
+    "(texts that define/call macros and repetitions referring to their own labels are covered by the generated wrap texts instead)",
 ]
 
 SPACES = " \t\n\x0b\x0c\r"
@@ -396,6 +397,93 @@ def macro_applicable(raw):
 
 
 # ------------------------------------------------------------------------------------------------
+# generated whole-text rewrites: texts that themselves define/call macros and repetitions referring to the text's own labels
+# (the corpus stream excludes such sources from to-macro); oracle = the image of the unrewritten text, cross-checked by the harness's
+# own expectation of the bytes (every statement is a data statement or a jump whose encoding the generator computes itself)
+
+def gen_wrap_text(rng):
+    """Z80 text; returns (lines, expected image from address 0)"""
+    nlab = rng.randrange(2, 6)
+    labs = ["L%d%s" % (i, rng.choice(["", "x", "_q"])) for i in range(nlab)]
+    items = []          # ("lab", name) | ("bytes", [..]) with symbolic refs ("lo", name) / ("hi", name) / ("rel", name)
+    src = ["\tcpu z80"]
+    mname = "jt%d" % rng.randrange(100)
+    dname = "em%d" % rng.randrange(100)
+    src += ["%s\tmacro tgt" % mname, "\tjp tgt", "\tendm", "%s\tmacro v,w" % dname, "\tdb v,(w)&255", "\tendm"]
+    todo = list(labs)
+    rng.shuffle(todo)
+    n = rng.randrange(6, 16)
+    for k in range(n):
+        if todo and (rng.random() < 0.35 or n - k <= len(todo)):
+            l = todo.pop()
+            src.append("%s:\tnop" % l if rng.random() < 0.5 else "%s\tnop" % l)
+            items += [("lab", l), ("bytes", [0])]
+            continue
+        r = rng.random()
+        t = rng.choice(labs)
+        if r < 0.25:
+            src.append("\t%s %s" % (mname if rng.random() < 0.5 else mname.upper(), t))
+            items.append(("bytes", [0xc3, ("lo", t), ("hi", t)]))
+        elif r < 0.45:
+            c = rng.randrange(1, 4)
+            src += ["\trept %d" % c, "\tdb %s&255" % t, "\tendm"]
+            items.append(("bytes", [("lo", t)] * c))
+        elif r < 0.6:
+            vals = [rng.randrange(256) for _ in range(rng.randrange(1, 4))]
+            src += ["\tirp zz,%s" % ",".join(str(v) for v in vals), "\tdb zz,(%s>>8)&255" % t, "\tendm"]
+            b = []
+            for v in vals:
+                b += [v, ("hi", t)]
+            items.append(("bytes", b))
+        elif r < 0.75:
+            v = rng.randrange(256)
+            src.append("\t%s %d,%s" % (dname, v, t))
+            items.append(("bytes", [v, ("lo", t)]))
+        elif r < 0.85:
+            # nested: a repetition inside a repetition referring to a label of the text
+            src += ["\trept 2", "\tirpc ch,\"12\"", "\tdb ch,%s&255" % t, "\tendm", "\tendm"]
+            items.append(("bytes", [1, ("lo", t), 2, ("lo", t)] * 2))
+        else:
+            v = rng.randrange(256)
+            src.append("\tdb %d" % v)
+            items.append(("bytes", [v]))
+    for l in todo:
+        src.append("%s:\tnop" % l)
+        items += [("lab", l), ("bytes", [0])]
+    # layout
+    addr = 0
+    val = {}
+    for it in items:
+        if it[0] == "lab":
+            val[it[1]] = addr
+        else:
+            addr += len(it[1])
+    img = []
+    for it in items:
+        if it[0] == "bytes":
+            for b in it[1]:
+                if isinstance(b, tuple):
+                    b = (val[b[1]] & 255) if b[0] == "lo" else (val[b[1]] >> 8) & 255
+                img.append(b)
+    return src, bytes(img)
+
+
+def wrap_variants(rng, src):
+    """(tag, files) for the spellings of the whole text the manual declares equivalent"""
+    head, body = src[:1], src[1:]
+    e = "\n"
+    plain = e.join(src) + e
+    out = [("plain", {"w.asm": plain})]
+    out.append(("to-macro", {"w.asm": e.join(head + ["c16wrap\tmacro"] + body + ["\tendm", "\tc16wrap"]) + e}))
+    out.append(("to-macro-after-other-expansion",
+                {"w.asm": e.join(head + ["c16pre\tmacro", "\tendm", "\tc16pre", "c16wrap\tmacro"] + body + ["\tendm", "\tc16wrap"]) + e}))
+    out.append(("to-include", {"w.asm": e.join(head + ["\tinclude \"c16body.inc\""]) + e, "c16body.inc": e.join(body) + e}))
+    out.append(("to-include-in-macro", {"w.asm": e.join(head + ["c16wrap\tmacro", "\tinclude \"c16body.inc\"", "\tendm", "\tC16WRAP"]) + e,
+                                        "c16body.inc": e.join(body) + e}))
+    return out
+
+
+# ------------------------------------------------------------------------------------------------
 # probe files for the correspondence real splitter <-> model
 
 PROBE_TARGETS = [
@@ -738,6 +826,33 @@ def run(args):
             shutil.rmtree(d, ignore_errors=True)
 
         log("C16: corpus sweep done %.1fs" % (time.time() - t0))
+        # ---------------- generated texts with macros/repetitions referring to their own labels: plain vs wrapped vs included
+        nwrap = 40 if args.tier == "quick" else 600
+        dist["wrap_texts"] = nwrap
+        dist["wrap_runs"] = 0
+        d = os.path.join(wd, "wrapgen")
+        for wi in range(nwrap):
+            rng = common.rng_for(args.seed, "C16/wrap/%d" % wi)
+            src, expect = gen_wrap_text(rng)
+            for tag, files in wrap_variants(rng, src):
+                shutil.rmtree(d, ignore_errors=True)
+                os.makedirs(d)
+                for fn, t in files.items():
+                    open(os.path.join(d, fn), "wb").write(t.encode("latin-1"))
+                img, diag = build_image(bdir, d, "w", "", [d])
+                evaluations += 1
+                dist["wrap_runs"] += 1
+                distinct.add(hash(files["w.asm"]))
+                if img != expect:
+                    spec_fail.append(dict(tag="wrapgen/%d/%s" % (wi, tag), whole=tag, test="generated", flags="",
+                                          sig=None if tag != "plain" else "generated-text-plain-spelling-wrong",
+                                          why="image of the %s spelling of a generated text differs from the bytes the text specifies%s: expected %s got %s"
+                                              % (tag, (" (" + diag[:300] + ")") if diag else "", expect.hex(), (img or b"").hex()),
+                                          files=files, incdir=d))
+                    if tag == "plain":
+                        break
+        shutil.rmtree(d, ignore_errors=True)
+        log("C16: generated wrap texts done %.1fs" % (time.time() - t0))
         # ---------------- boundary: lines padded with trailing blanks to the line-buffer sizes, CR-LF ends
         for name, asm, flags in (sel if args.tier == "thorough" else rng0.sample(sel, 40)):
             raw = open(asm, "rb").read().decode("latin-1")
